@@ -60,6 +60,133 @@ def gen_case(seed, i, engine, placement=None):
     return core.Case("backend", lines, {"engine": engine})
 
 
+# ------------------------------------------------------------------ the repair stepped through its storage calls
+#
+# The async repair is not atomic: retry() reads the key's latest value, takes a fresh revision from the TSO and
+# only then commits [CAS(revKey, new, prev), Put(objKey_new, val)]. With cfg retrysteps=1 (gated mode) the harness
+# parks the retry loop's goroutine at each of its storage calls as pseudo client R (`retry` -> `at R iter`,
+# `step R` -> `at R commit` | `done R retry unnecessary`, `step R [f=]` -> `done R retry success|failed_put|
+# unknown_put`), so that client requests can be placed BETWEEN the repair's read and its commit; the model side is
+# the `sched` driver over KB.Sys (Action.retryRead / Action.retryCommit).
+
+K1, K2, K3 = b"/r/a", b"/r/b", b"/r/a/b"
+
+FIRST = ("create", "update", "delete")
+BETWEEN = ("upd", "del", "recreate", "other", "none", "race-client-first", "race-repair-first", "compact")
+COMMITS = ("-", "e", "un", "ua")
+
+
+def stepped_placements():
+    """(first verb, what runs between the repair's read and its commit, fault on the repair's commit, second
+    unresolved write queued behind: None | "same" | "other")"""
+    res = []
+    for verb in FIRST:
+        for btw in BETWEEN:
+            if btw == "recreate" and verb != "delete":
+                continue
+            if btw in ("upd", "del", "race-client-first", "race-repair-first") and verb == "delete":
+                continue
+            for cf in (COMMITS if btw in ("upd", "del", "other", "none", "recreate") else ("-",)):
+                res.append((verb, btw, cf, None))
+    for verb in ("create", "update"):
+        for second in ("same", "other"):
+            for btw in ("upd", "del", "none"):
+                res.append((verb, btw, "-", second))
+    return res
+
+
+def gen_stepped(seed, i, engine, placement=None):
+    r = rng_for(seed, "c09s/%d" % i)
+    sh = hist.Shadow()
+    others = [K2, K3]
+    verb, btw, cfault, second = placement or (r.choice(FIRST), r.choice(BETWEEN), r.choice(COMMITS), r.choice([None, None, "same", "other"]))
+    if placement is None:
+        if verb == "delete" and btw in ("upd", "del", "race-client-first", "race-repair-first"):
+            btw = "recreate"
+        if verb != "delete" and btw == "recreate":
+            btw = "upd"
+    lines = [hist.cfg_line(engine, retry=0, check=5, retrysteps=1), "gated 1", "arm retry.step",
+             "watch w1 %s 0" % hx(PREFIX + b"/")]
+    # some history on the other keys, and the target key in the state the first write needs
+    lines += hist.gen_writes(r, sh, r.randint(0, 3), others, p_ok=0.9)
+    if verb in ("update", "delete"):
+        lines += ["create %s %s" % (hx(K1), hx(b"v0")), "rev"]
+        sh.write("create", K1)
+    base = sh.keys.get(K1, (0, False))[0]
+    # the write whose outcome is unknown but which did land (f=ua)
+    if verb == "create":
+        lines.append("create %s %s f=ua" % (hx(K1), hx(b"unc-c")))
+    elif verb == "update":
+        lines.append("update %s %s %d f=ua" % (hx(K1), hx(b"unc-u"), base))
+    else:
+        lines.append("delete %s %d f=ua" % (hx(K1), r.choice([0, base])))
+    sh.dealt += 1
+    landed = sh.dealt
+    lines += ["rev", "await retry.step"]
+    if second == "same" and verb != "delete":
+        # a second unresolved write queued behind, on the same key (conditioned on the first one)
+        lines.append("update %s %s %d f=ua" % (hx(K1), hx(b"unc-2"), landed))
+        sh.dealt += 1
+        landed2 = sh.dealt
+        lines += ["rev", "await retry.step"]
+        # the head is no longer the newest version of its key: its repair is unnecessary
+        lines += ["retry", "step R", "rev", "await retry.step"]
+        landed = landed2
+    elif second == "other":
+        lines.append("create %s %s f=ua" % (hx(b"/r/c"), hx(b"unc-o")))
+        sh.dealt += 1
+        lines += ["rev", "await retry.step"]
+    # the repair of the head, up to just before its commit: it has read the key and holds a fresh revision
+    if btw == "race-client-first":
+        # a client is dealt its revision BEFORE the repair is dealt its own, and commits while the repair is parked
+        lines += ["start c1 update %s %s %d" % (hx(K1), hx(b"cli"), landed), "retry", "step R", "rev", "step c1", "rev"]
+        sh.dealt += 2
+    elif btw == "race-repair-first":
+        # both hold a revision; the repair commits first, the client's compare-and-swap then fails
+        lines += ["start c1 update %s %s %d" % (hx(K1), hx(b"cli"), landed), "retry", "step R", "rev"]
+        sh.dealt += 2
+    else:
+        lines += ["retry", "step R", "rev"]
+        sh.dealt += 1
+        if btw == "upd":
+            lines.append("update %s %s %d" % (hx(K1), hx(b"cli"), landed))
+        elif btw == "del":
+            lines.append("delete %s %d" % (hx(K1), r.choice([0, landed])))
+        elif btw == "recreate":
+            lines.append("create %s %s" % (hx(K1), hx(b"again")))
+        elif btw == "other":
+            lines += hist.gen_writes(r, sh, r.randint(1, 2), others, p_ok=0.8, sync=False)
+            sh.dealt -= 1
+        elif btw == "compact":
+            lines.append("compact 0")
+            sh.dealt -= 1
+        else:
+            sh.dealt -= 1
+        sh.dealt += 1
+        lines.append("rev")
+    # the repair's commit
+    lines.append("step R" + ("" if cfault == "-" else " f=" + cfault))
+    lines += ["rev", "await retry.step"]
+    if btw.startswith("race"):
+        lines += ["step c1", "step c1", "rev"]
+    sh.keys.pop(K1, None)
+    # the engine "answers again": the queue drains (a repair that is not needed ends at its read)
+    for _ in range(5):
+        lines += ["retry", "step R", "step R", "rev", "await retry.step"]
+    lines += hist.gen_writes(r, sh, r.randint(1, 2), [K1] + others, p_ok=0.5)
+    lines += ["rev", "drain w1", "list %s %s 0 0" % (hx(PREFIX + b"/"), hx(PREFIX + b"0")), "dump"]
+    return core.Case("backend", lines, {"engine": engine, "stepped": placement or "random"}, model_suite="sched")
+
+
+def stepped_cases(seed, tier, base=3000):
+    pl = stepped_placements()
+    engines = ["memkv", "tikv"] if tier == "quick" else ENGINES
+    cases = [gen_stepped(seed, base + i, engines[i % len(engines)], p) for i, p in enumerate(pl)]
+    n_rand = 12 if tier == "quick" else 300
+    cases += [gen_stepped(seed, base + 500 + i, ENGINES[i % 3]) for i in range(n_rand)]
+    return cases, len(pl)
+
+
 def oracle(case, only=None):
     snap = {}
     queue_empty = False
@@ -68,7 +195,10 @@ def oracle(case, only=None):
     n_events = 0
     for i, (line, out) in enumerate(zip(case.lines, case.impl)):
         t, o = line.split(), out.split()
-        if t[0] in ("create", "update", "delete"):
+        if t[0] in ("start", "step") and len(o) >= 4 and o[0] == "done" and o[2] in ("create", "update", "delete"):
+            # a stepped client returned: judge its response like a sequential one's
+            t, o = [o[2]] + [x for x in t if x.startswith("f=")], o[2:]
+        if t[0] in ("create", "update", "delete") and len(o) >= 2:
             faulted = [x for x in t if x.startswith("f=")]
             if faulted and faulted[0] in ("f=ua", "f=un") and o[1] in ("ok", "cf", "nf"):
                 # a conflict can legitimately pre-empt the fault (the condition failed before commit)
@@ -119,6 +249,8 @@ def check(rep, tier, seed):
     n_rand = 18 if tier == "quick" else 600
     for i in range(n_rand):
         cases.append(gen_case(seed, 1000 + i, ENGINES[i % 3]))
+    scases, n_spl = stepped_cases(seed, tier)
+    cases += scases
     core.run_cases(cases)
     for c in cases:
         rep.count_case(c)
@@ -131,6 +263,9 @@ def check(rep, tier, seed):
             core.handle_diff(rep, "C09", "correspondence", c)
             return
     rep.cov["fault_placements"] = len(pl)
+    rep.cov["stepped_repair_placements"] = n_spl
     rep.assumptions += ["unknown-outcome faults injected at the KvStorage boundary (applied / not applied), incl. on the repair write",
                         "retry interval 0 / check interval 5 ms through the verif setter; each retry step released by the script (hook gate retry.step)",
-                        "sequential client requests around the faults"]
+                        "sequential client requests around the faults; in the stepped-repair cases the repair's own storage calls (read, commit) "
+                        "are scheduled by the script (pseudo client R: goroutine of the retry loop, identified at its hook gate) and client "
+                        "requests run between them"]
